@@ -1336,6 +1336,13 @@ func (c *Ctx) ForEach(fnSpec, callee, collPat, desc string, conditional bool) {
 	why := ""
 	for _, call := range calls {
 		b := call.Block()
+		if b.Parent() != f.Fn {
+			// a call inside a registered helper happens where the helper is called, provided the helper cannot
+			// succeed without it (the loop body was extracted into the helper)
+			if h := ir.HelperOf(f, b.Parent()); h != nil && h.HF.MustPassOnSuccess(b) {
+				b = f.OuterBlock(b)
+			}
+		}
 		var body map[*ssa.BasicBlock]bool
 		var latch []*ssa.BasicBlock
 		var head *ssa.BasicBlock
